@@ -261,6 +261,37 @@ def clause_snapshot_args(prog, rep):
                   "comparison against late competitors is then made with the wrong incumbent", c.loc())
 
 
+def clause_hydrated_incumbent(prog, rep):
+    """the incumbent timestamp of a re-hydrated snapshot may be unknown (placeholder, C11's finding) or parsed from the persisted
+    name, but never some other clock (e.g. the snapshot row's creation time): the comparison would be made against a wrong incumbent"""
+    n = 0
+    for f in prog.nontest_fns(("mdk_core",)):
+        root = prog.fns.get(f.root, f)
+        if last_seg(root.self_adt) != "EpochSnapshotManager":
+            continue
+        if any(K.is_storage_trait_call(c, "create_group_snapshot") for c in f.live_calls()):
+            continue
+        for bb, s in f.aggregates("EpochSnapshot"):
+            if not s.get("fields"):
+                continue
+            n += 1
+            o = A.agg_field_operand(s, "applied_commit_ts")
+            if o is None:
+                continue
+            ok = True
+            names = []
+            if "p" in o:
+                pr = A.producers(prog, f, o["p"][0], scope=K.core_scope(prog))
+                names = sorted(set(x.name for x in pr["calls"]))
+                ok = all(x.name in ("parse", "from_str", "from_str_radix") for x in pr["calls"])
+            rep.check(ok, "snapshot-records-incumbent", "hydrated/commit-ts",
+                      "a re-hydrated snapshot's incumbent timestamp is a placeholder or parsed from the persisted name",
+                      "a re-hydrated snapshot's incumbent timestamp is produced by %s (e.g. the snapshot row's creation time), not the applied "
+                      "commit's own timestamp: after a restart an already applied commit compares as better than itself" % names,
+                      "%s:%s" % (f.file, s.get("line")))
+    rep.floor("snapshot-records-incumbent", "EpochSnapshot reconstruction sites", n, 1)
+
+
 def clause_future_epoch(prog, rep):
     """C01.4: a WrongEpoch commit from a *future* epoch must not be filed as terminally Failed."""
     scope = K.core_scope(prog)
@@ -319,4 +350,5 @@ def run(ctx, rep):
     clause_comparator(prog, rep)
     clause_rollback_arm(prog, rep)
     clause_snapshot_args(prog, rep)
+    clause_hydrated_incumbent(prog, rep)
     clause_future_epoch(prog, rep)
